@@ -329,15 +329,32 @@ class MultiplyNeg(MultiplyUnit):
 
 
 def contracts():
-    return [ModRule(), MinimumRule(), MaximumRule(), InRangeRule(), NormDimRule(), ConstUniform(), PowerRule(), MultiplyUnit(), MultiplyNeg()]
+    from contracts import c01_nd  # axis-moving swap protocols against the n-d denotational model (bounded)
+    from contracts import c01_scalar  # more elementwise rewrite rules
+    return c01_scalar.contracts() + [ModRule(), MinimumRule(), MaximumRule(), InRangeRule(), NormDimRule(), ConstUniform(), PowerRule(), MultiplyUnit(), MultiplyNeg()] + c01_nd.contracts()
 
 
 TRUSTED = ['pyvc symbolic executor and its Python model (DESIGN 2.3)',
            'soundness of child ranges is C06 (the rules are checked relative to it)',
            'numpy meaning of %, minimum, maximum, power, normdim, InRange.evalf (table in contracts/C01.py)',
-           'int64 arithmetic treated as mathematical']
+           'int64 arithmetic treated as mathematical',
+           'n-d denotations of the node constructors Transpose, TakeDiag, Ravel, Unravel, InsertAxis, Take, Inflate (concrete dofmap shape), Power, Sign, Negative, Absolute = numpy meaning of their evalf '
+           '(contracts/c01_nd.py CONSTRUCTORS; cross-checked against the real nodes on random arrays by native/axioms_c01.py); numpy reshape is row-major',
+           'util.untake (inverse permutation), util.product, asarray on an Array (identity), numeric.isint are modelled natively; _certainly_different never fires and _certainly_equal holds only for the same '
+           'length node (the sound direction for rules that rely on them)',
+           'integer power laws (x**a)**n == x**(a*n), |x|**e == x**e for even e; real power: x**e == |x|**e for an even integer e, (y**a)**n == y**(a*n) for y >= 0; numpy.mod(a, 2) == 0 iff a is an even integer',
+           'L-DIVMOD and the division algorithm (ground instances, contracts/c01_nd.py)']
 ASSUMPTIONS = ['elementwise interpretation of integer IR constructors (Add/Multiply/Negative/constant act pointwise on equal-shaped operands)',
-               'Python asserts enabled (no -O)']
+               'Python asserts enabled (no -O)',
+               'swap protocols: child nodes obey the same protocol contract (modular node lemma; whole-DAG statement by structural induction); a child may always decline',
+               '_take protocol precondition: index elements lie in [0, shape[axis]) (established by evaluable.take via InRange / checked constants); _takediag: the two axes have equal length; '
+               '_unravel: shape[axis] == sh1*sh2; _power: the exponent array has the shape of self',
+               'axis lengths are non-negative integers (_isindex); element values of n-d arrays are integers (the rules under n-d contract do not inspect values)',
+               'Power._power float-even-constant-exponent: iszero() is exact on expressions built from uniform constants (constant folding by simplification); for other operands iszero(x) only implies x == 0',
+               'hash-consing: Sign(fi) is the one existing Sign node over fi (Multiply._optimized_for_numpy sign-times-self)']
 NOT_COVERED = ['termination of the simplification fixed point (liveness over the whole rule system)',
-               'all axis-moving rewrite protocols (_take/_sum/_multiply/_inflate/_unravel/... swaps), float and complex rules',
-               'shape/dtype preservation of rewrites other than the ones listed']
+               'n-d swap protocols are BOUNDED: rank <= 3 (4 for the base array), listed axis configurations, Inflate with dofmap shapes (), (2,), (2,2) only; Inflate._take along the inflated axis (SwapInflateTake), '
+               '_sum/_multiply/_add/_inflate/_insertaxis/_diagonalize/_determinant/_inverse/_product/_loopsum protocols, Einsum/Diagonalize/LoopSum/LoopConcatenate/Poly* nodes, float and complex rules other than Power._power',
+               'Power._power with arbitrary (non-constant) float exponents: PARKED contract fails on the unchanged tree, candidate defect (notes/C01-c01.md)',
+               'shape/dtype metadata (C06 first sentence) as separate contracts on the `shape` properties: only the shape clause of every swap-rule contract (announced lengths of the replacement == protocol shape) is checked',
+               'Evaluable.simplified driver (deep_replace_property), Add._simplified / Multiply._simplified alignment and _inflations/_diagonals branches, Equal/Cast/Choose/Take._simplified, RavelIndex/Range/SwapInflateTake']
